@@ -77,6 +77,20 @@ class Acc:
             self.violations.append(
                 {'sig': sig, 'clause': clause, 'case': case, 'detail': detail})
 
+    def relabel(self, suffix, shard):
+        """Every violation recorded so far becomes a violation of the whole shard (replayed as a shard, with whatever
+        the shard does before its body), its signature extended by `suffix`.  Known-finding globs still match by prefix
+        only if they say so: a finding is a call site, and the suffix names a different history."""
+        cnt = collections.Counter()
+        for v in self.violations:
+            v['detail'] = {'original_case': v['case'], 'detail': v['detail']}
+            v['case'] = {'kind': 'shard', 'shard': shard}
+        for sig, n in self.viol_count.items():
+            cnt[sig + suffix] += n
+        for v in self.violations:
+            v['sig'] = v['sig'] + suffix
+        self.viol_count = cnt
+
     def merge(self, other):
         self.states |= other.states
         self.nstates += other.nstates
